@@ -159,6 +159,44 @@ inline void crashHandler(int sig) {
     raise(sig);
 }
 
+// The handler runs on an alternate stack: a stack overflow (runaway recursion in the code under test) must still leave
+// its crash line behind instead of killing the process silently. Called for the main thread by init() and for every
+// thread the interposer starts.
+struct AltStack {
+    char *mem = nullptr;
+    void install() {
+        if (mem) return;
+        const size_t sz = 64 * 1024;
+        mem = (char *) malloc(sz);
+        if (!mem) return;
+        stack_t ss{};
+        ss.ss_sp = mem;
+        ss.ss_size = sz;
+        sigaltstack(&ss, nullptr);
+    }
+    ~AltStack() {
+        if (!mem) return;
+        stack_t ss{};
+        ss.ss_flags = SS_DISABLE;
+        sigaltstack(&ss, nullptr);
+        free(mem);
+    }
+};
+inline void installAltStack() {
+    static thread_local AltStack a;
+    a.install();
+}
+inline void installCrashHandlers() {
+    installAltStack();
+    for (int sig : {SIGSEGV, SIGBUS, SIGFPE, SIGILL, SIGABRT}) {
+        struct sigaction sa{};
+        sa.sa_handler = crashHandler;
+        sa.sa_flags = SA_ONSTACK | SA_NODEFER;
+        sigemptyset(&sa.sa_mask);
+        sigaction(sig, &sa, nullptr);
+    }
+}
+
 inline long optInt(const char *k, long dflt) {
     auto it = st().opt.find(k);
     return it == st().opt.end() ? dflt : strtol(it->second.c_str(), nullptr, 0);
@@ -184,7 +222,7 @@ inline void init(int argc, char **argv) {
             if (fd >= 0) s.outFd = fd;
         } else if (auto eq = a.find('='); eq != std::string::npos) s.opt[a.substr(0, eq)] = a.substr(eq + 1);
     }
-    for (int sig : {SIGSEGV, SIGBUS, SIGFPE, SIGILL, SIGABRT}) signal(sig, crashHandler);
+    installCrashHandlers();
 }
 
 // Final line. `extra` carries the engine's counters.
